@@ -71,8 +71,29 @@ def seeded():
     return "\n".join(rows)
 
 
+def tiers():
+    """quick figures from evidence/*.json (the last local run), thorough figures from the sweep log kept under
+    runs/thorough-sweep.log (copied from the last `vp run` sweep)."""
+    thor = {}
+    lp = os.path.join(ROOT, "runs", "thorough-sweep.log")
+    if os.path.exists(lp):
+        for l in open(lp, errors="replace"):
+            m = re.match(r"^(C\d\d) thorough: evaluations=(\d+) .*bound_completed=(\S+(?: \S+)?) exhaustive=(\w+) violations=(\d+) known=(\d+) wall=([\d.]+)s", l)
+            if m:
+                thor[m.group(1)] = m.groups()[1:]
+    rows = ["| check | quick: evaluations | bound completed | exhaustive within the bound | wall | thorough: evaluations | bound completed | exhaustive | wall |", "|---|---|---|---|---|---|---|---|---|"]
+    for f in sorted(glob.glob(os.path.join(ROOT, "evidence", "C*.json"))):
+        e = json.load(open(f))
+        cid = e["property_id"]
+        c = e.get("coverage", {})
+        t = thor.get(cid)
+        rows.append("| %s | %s | %s | %s | %.0f s | %s |" % (cid, c.get("evaluations", "-"), c.get("bound_completed", "-"), c.get("exhaustive", "-"), e.get("wall_s", 0),
+                                                    " | ".join([t[0], t[1], t[2], t[5] + " s"]) if t else "- | - | - | -"))
+    return "\n".join(rows)
+
+
 def main():
-    tables = {"mutants": mutants(), "seeded": seeded()}
+    tables = {"mutants": mutants(), "seeded": seeded(), "tiers": tiers()}
     if "--write" not in sys.argv:
         for k, v in tables.items():
             print("== " + k + "\n" + v + "\n")
@@ -81,6 +102,8 @@ def main():
     s = open(p).read()
     for k, v in tables.items():
         b, e = "<!-- BEGIN:%s -->" % k, "<!-- END:%s -->" % k
+        if b not in s:
+            continue
         i, j = s.index(b), s.index(e)
         s = s[:i + len(b)] + "\n" + v + "\n" + s[j:]
     open(p, "w").write(s)
